@@ -39,4 +39,4 @@ def replay(pid, path):
 MANIFEST = dict(engine='tlc-gen+harness+tlc-trace', ref='DESIGN.md section 6 C02',
    technique='TLC enumerates messages and checks path/first-match lemmas on ScpiParser.tla; executions of the real parser validated by TLC (TVParser)',
    text='All messages of 1..3 (quick) / 1..4 (thorough) units over the header vocabulary are enumerated by TLC, which checks on the specification that the incrementally threaded path equals the declarative effective-header definition; each message is executed on the real library and the recorded handler invocations (tag, composed header, pattern test, numeric suffixes), -113 errors and their text are validated by TLC against the specification. Exhaustive within the vocabulary.',
-   note='Trusted: TLC, the scripted-handler driver. Table and header vocabulary are fixed (one overlapping table); longer messages and other tables only through C08/C09 streams.')
+   note='Also validated: hook traces of the repository test programs (TVSuite) and random messages of a minimal instrument against the composition Scpi.tla (TVScpi). Trusted: TLC, the scripted-handler driver. Table and header vocabulary are fixed (one overlapping table); longer messages and other tables only through C08/C09 streams.')
